@@ -16,13 +16,14 @@ RULE = (
     "ndarray, float o AdArray (reflected operators), unary minus, left product with a sparse matrix (csr/csc/coo), "
     "row slicing (int / slice / index array), every function of porepy.numerics.ad.functions (exp, log, abs, "
     "l2_norm(dim 1-3), trig, hyperbolic and inverses, heaviside, heaviside_smooth, characteristic_function, "
-    "safe_power, maximum with AdArray/ndarray/float operands). Arguments are kept in each function's smooth domain by "
+    "safe_power, maximum with AdArray/ndarray/float operands); powers with scalar / array exponents, and with integer "
+    "exponents >= 1 a base entry that is exactly zero. Arguments are kept in each function's smooth domain by "
     "frozen affine rescaling (see gen/exprtrees.py). Oracle: value = numpy evaluation of the same tree (rtol 1e-12); "
     "Jacobian = central finite difference of the numpy evaluation (best of h=1e-4,1e-5,1e-6; tolerance 1e-6 of "
     "max|J|+1) and, when every node is analytic, complex-step derivative (tolerance 1e-9). A second class (1 case in 8) checks the positively homogeneous functions l2_norm / abs / maximum at magnitudes 1e-9..1e6 through f(s u) = s f(u) and J[f(s u)] = s J[f(u)] (rtol 1e-12). Non-trivial = depth>=2 with "
     "a binary op between two AD-dependent operands or a function of a composite; distinct = hash of spec."
 )
-BUDGET = {"quick": {"cases": 4000, "seconds": 45}, "thorough": {"cases": 300000, "seconds": 1200}}
+BUDGET = {"quick": {"cases": 8000, "seconds": 60}, "thorough": {"cases": 300000, "seconds": 1200}}
 TECHNIQUE = "property-based testing (Hypothesis): generated expression trees vs numpy mirror, finite-difference and complex-step derivatives"
 LEVEL_TEXT = ("Exploration: thousands of generated expression programs per run over the whole operator / function "
               "surface of AdArray; values compared with a numpy mirror, Jacobians with two independent numerical "
@@ -32,7 +33,7 @@ LEVEL_NOTE = ("Derivative oracle is numerical: a Jacobian error below 1e-6 relat
 DESIGN_REF = "DESIGN.md section 4, C01"
 ASSUMPTIONS = ["evaluation points inside smooth domains (enforced by frozen rescaling)",
                "AdArray is the left operand when combined with ndarrays (documented restriction)"]
-REQUIRED = {"bin": 0.12, "rbin": 0.04, "mat": 0.1, "slice": 0.1, "slice-negative": 0.02, "slice-mask": 0.01, "max": 0.03, "norm": 0.03, "analytic": 0.1, "homog": 0.03,
+REQUIRED = {"bin": 0.12, "rbin": 0.04, "mat": 0.1, "slice": 0.1, "slice-negative": 0.02, "pow-zero-base": 0.004, "pow-zero-base-array": 0.002, "slice-mask": 0.01, "max": 0.03, "norm": 0.03, "analytic": 0.1, "homog": 0.03,
             "homog-small": 0.01}
 
 
